@@ -64,7 +64,7 @@ def custom_mods(name, fmt, obj, pth, part, snap, rng):
         if not imgs:
             return []
         p = rng.choice(sorted(imgs)); k = rng.choice(sorted(imgs[p]))
-        return [{"path": pth, "setitem": "images", "keys": [p, k], "value": v} for v in ["/abs/x", "/", 5, None, ["x"]]]
+        return [{"path": pth, "setitem": "images", "keys": [p, k], "value": v} for v in ["/abs/x", "/", 5, None, ["x"], 0, False, [], {"$float": "0.0"}]]
     if name == "ti_platforms":
         if not part.images:
             return []
@@ -92,10 +92,15 @@ def propose(fmt, spec, rng, T, target=None):
     for _ in range(12):
         pth, cls, snap = rng.choice(snaps)
         rule = rng.choice(R.catalogue(cls)) if target is None else target[1]
+        mods, exact = [], []
         if rule[0] == "custom":
             mods = custom_mods(rule[1], fmt, obj, pth, parts[pth], snap, rng)
-        else:
-            mods, exact = [], []
+            for m in mods:
+                if "set" in m:
+                    s2 = dict(snap); s2[m["set"]] = m["value"]
+                    if len(R.violated(cls, s2, T)) == 1:
+                        exact.append(m)
+        if rule[0] != "custom" or R.rule_fields(rule):
             for f, v in R.candidates(rule, snap, T, rng):
                 s2 = dict(snap); s2[f] = v
                 if not R.holds(rule, s2, T):
